@@ -55,6 +55,14 @@ claim("C19", "MIR who-may-write enumeration of the inner Vec + allowed-primitive
       "reviewed sites after len checks, TryFrom<Vec> for OneOrSet goes through the duplicate-checking OrderedSet::try_from, empty sets are rejected on deserialisation; OneOrMany normalisation.",
       "order/content equality with a list model over whole histories; KeyComparable impls of element types.", "DESIGN.md §7 C19")
 
+claim("C08", "HIR argument-provenance identity between signed and emitted operands + format-template decoding + char-class table extraction vs spec + guard/setter inventory of create_jws",
+      "Decides for all payloads/headers/options on the producing side: every signing_input field is the result of the single create_message formula; in each encoder the protected segment "
+      "and payload placed in the token are the very operands that were signed (compact templates `{h}.{p}.{sig}` / `{h}..{sig}` decoded from the format arguments); encoder and decoder agree on the "
+      "b64 default; CharSet::Default/UrlSafe equal the specified character sets and '.' is rejected for unencoded attached compact payloads, and the compact encoder applies that validator; "
+      "create_jws assembles the header from the options (alg from the method's JWK, kid override/default, typ default, b64=false ⇒ crit=[b64], nonce/url/cty/custom/jwk copied), looks the key id up "
+      "from the same method's digest, signs the encoder's signing input and returns into_jws(signature); verify_jws side shared with C03-R6.",
+      "cryptographic separation between methods' keys; JSON escaping in flattened/general form; the decoding half is C01/C11.", "DESIGN.md §7 C08")
+
 for _p, _r in {
     "C01": "rules not yet implemented in this revision (planned, DESIGN §7)", "C02": "rules not yet implemented in this revision",
     "C03": "rules not yet implemented in this revision", "C04": "rules not yet implemented in this revision",
